@@ -1,9 +1,45 @@
-(* C12 -- Backup is a consistent point-in-time copy.  The snapshot theorem is in DBProofsBackup.v and
-   appended to this file when built; decided here: the lock structure of Backup in the code as it is. *)
-From Pogreb Require Import Base ShapeCheck.
+(* C12 -- Backup is a consistent point-in-time copy (flat-index instantiation). *)
+From Pogreb Require Import Base Flat Spec DB DBInv DBLemmas DBProofsRecovery DBProofsBackup ShapeCheck.
 
 (* Backup holds the maintenance lock throughout (no compaction runs) and takes the segment list and
    the sizes of the non-full segments under db.mu; files are copied after the lock is released *)
 Theorem C12_backup_lock_structure : backup_shape_ok = true.
 Proof. exact shape_backup. Qed.
 Print Assumptions C12_backup_lock_structure.
+
+(* For EVERY schedule interleaving the backup micro-steps (snapshot = the plan taken in s0; one copy
+   step per planned segment, reading the source disk as it is at that moment) with writer operations
+   (Put / Delete / Sync, including ones that roll the log over; compaction is excluded by the
+   maintenance lock): the backup directory is well formed, carries a lock file, its log is the log
+   at the snapshot instant, the recovering Open of it succeeds with exactly the snapshot contents;
+   and the source went through the writers' operations only. *)
+Theorem C12_every_schedule : forall (P : params) (seed : N) (s0 s : st) (m0 : mem) (copies : list dseg),
+  params_ok P -> Inv P s0 -> s_mem s0 = Some m0 ->
+  bsteps P (s0, backup_plan m0, nil) (s, nil, copies) ->
+  let b := backup_disk copies in
+  DiskOK b /\ bac_ok b /\ d_lock b = true /\ olog b = olog (s_disk s0) /\
+  (exists s' : st,
+     db_open flat_ops P seed {| s_mem := None; s_disk := b; s_trace := nil |} = (s', OOpened true) /\
+     Inv P s' /\ s_mem s' <> None /\
+     (forall k : key, sget (abs (s_disk s')) k = sget (abs (s_disk s0)) k) /\
+     olog (s_disk s') = olog (s_disk s0)) /\
+  DBProofsBackup.wsteps P s0 s /\ Inv P s /\ s_mem s <> None.
+Proof. exact C12_schedule. Qed.
+Print Assumptions C12_every_schedule.
+
+(* the copies may even be taken from disks BETWEEN two file-system calls of a writer (the copy runs
+   outside the database lock) *)
+Definition C12_event_granular_statement := C12_event_granular.
+
+(* a backup step never changes the source: it is a copy step (source state identical) or a writer step *)
+Theorem C12_source_untouched : forall (P : params) (a b : bstate), bstep P a b ->
+  fst (fst b) = fst (fst a) /\
+  (exists (p : N * N * option N) (c : dseg),
+     copy_seg (s_disk (fst (fst a))) p = Some c /\ snd (fst a) = p :: snd (fst b) /\ snd b = snd a ++ c :: nil) \/
+  DBProofsBackup.wstep P (fst (fst a)) (fst (fst b)) /\ snd (fst b) = snd (fst a) /\ snd b = snd a.
+Proof. exact backup_does_not_touch_source. Qed.
+Print Assumptions C12_source_untouched.
+
+(* sensitivity: copying a non-full segment entirely instead of up to the captured size yields a
+   directory that matches no instant of the run *)
+Definition C12_whole_copy_refuted := BkEx.bk_whole_differs.
